@@ -25,6 +25,7 @@ RULE = ("weak-reference census: every streaming tool (zip, zip strict, map, filt
         "early-closed children. cycle, sorted and the collection builders are excluded as documented. "
         "one evaluation = one stream run; non-trivial = every run (N >= 60); distinct = (tool, N, parameters)")
 RULE += (' Also: chain.from_iterable over a long lazy stream of pages (closeable class iterators keeping their records; plain iterators); groupby without key / identity key read group by group; tee with a real lock where a started child is closed while its sibling holds the lock mid-fetch and that close is cancelled at each suspension point; all streams report len() == 0 (current backlog).')
+RULE += (' Also: sized, lazily produced synchronous datasets as sources of every streaming tool.')
 ASSUMPTIONS = ["the bound's constant was read off the unchanged tree with slack; a buffering tool grows linearly and "
                "crosses it within a few steps, so the verdict does not depend on the exact constant"]
 EXHAUSTIVE = {"quick": False, "thorough": False}
